@@ -136,6 +136,11 @@ func sysProp(c Case, x *h.Ctx) *h.Violation {
 		_ = cmd.Process.Kill()
 		return h.V("iofault/system/hang", "the child did not finish within 30 s after the injected failure %s (deadlock?)", faultDesc(c.Sys))
 	}
+	for _, ln := range strings.Split(out.String(), "\n") {
+		if strings.HasPrefix(ln, "strace: ") {
+			panic(h.Infra{Msg: "the tracer failed: " + ln})
+		}
+	}
 	ops := p.Ops()
 	called := make([]bool, len(ops))
 	okRet := make([]bool, len(ops))
